@@ -66,7 +66,8 @@ package curves
 //@   ensures[C06.average C07] err == nil && c.Config.Function.Type == "average" ==> value == sumto(memberVals, memberCount) / memberCount
 //@   ensures[C06.minimum C07] err == nil && c.Config.Function.Type == "minimum" ==> (forall j :: 0 <= j && j < memberCount ==> value <= memberVals[j]) && (exists j :: 0 <= j && j < memberCount && value == memberVals[j])
 //@   ensures[C06.maximum C07] err == nil && c.Config.Function.Type == "maximum" ==> (forall j :: 0 <= j && j < memberCount ==> value >= memberVals[j]) && (exists j :: 0 <= j && j < memberCount && value == memberVals[j])
-// (attempted, not counted: C06.delta "value == largest - smallest member" does not discharge within the time limit; its range clause does)
+// (attempted, not counted: C06.delta "value == largest - smallest member" does not discharge within the time limit; its range clause and the one-member case do)
+//@   ensures[C06.delta.single C07] err == nil && c.Config.Function.Type == "delta" && memberCount == 1 ==> value == 0
 //@   modifies memberVals, memberCount, each(*LinearSpeedCurve).Value, each(*FunctionSpeedCurve).Value, each(*PidSpeedCurve).Value, lastAvgRead, lastValue, lastInterp, segLo, segHi, segHit, each(*util.PidLoop).integral, each(*util.PidLoop).error, each(*util.PidLoop).lastTime, lastPidOut, pidSteps, procWorld, started, lastReadFailed
 //@   loop 1 "for _, curveId := range c.Config.Function.Curves"
 //@     invariant -1 <= rangeindex && rangeindex < len(c.Config.Function.Curves) && len(curves) == rangeindex + 1 && (arrayOf(curves) == 0 || arrayOf(curves) >= old(W)) && (len(curves) == 0 ==> cap(curves) == 0)
